@@ -503,9 +503,9 @@ def check(facts, rep, tier, cfg):
                             rep.ok("C01.R9", "payload-unmodified/%s#%d" % (b.path.split("::{")[0], k9), where, "data <- receive buffer / parser payload via conversions only")
         rep.floor("C01.R9", "Datagram construction sites", k9, 3)
         # ---- R15 sockets that carry tunnel data are closed gracefully
-        rep.rule("C01.R15", "TCP sockets that carry tunnel data keep the default close semantics: nothing sets SO_LINGER on them (with a zero / short "
+        rep.rule("C01.R15", "transport options that lose bytes of the tunnel are not enabled: nothing sets SO_LINGER on a socket (with a zero / short "
                             "linger, dropping the socket after the bridge finished discards what is still queued and resets the connection: the "
-                            "tail of the data and the half-close are lost)")
+                            "tail of the data and the half-close are lost), and no hyper connection that serves upgrades runs with pipeline_flush")
         k15 = 0
         bad15 = 0
         for b in crate.bodies:
@@ -524,6 +524,21 @@ def check(facts, rep, tier, cfg):
                     rep.bad("C01.R15", "no-linger/%s" % b.path.split("::{")[0], "%s (%s)" % (loc_str(t["loc"]), b.path),
                             "`%s` on a socket of the tunnel path: when the socket is dropped the kernel discards unsent data and sends RST, so a "
                             "slow reader loses the tail of the stream and sees a reset instead of the half-close" % c["name"])
+        # hyper's `pipeline_flush` defers flushing the response while request bytes are buffered; on an upgrade (CONNECT / websocket) hyper hands
+        # the socket over and drops what it has not flushed: the 200 / 101 head is lost whenever the client sends data right behind the request
+        for b in crate.bodies:
+            if "::tests::" in b.path or b.file.endswith("tests.rs"):
+                continue
+            for bi, t in b.calls():
+                c = callee(t)
+                if c and c["name"] == "pipeline_flush" and "hyper" in c["path"]:
+                    flag = const_eval(Tracer(facts, b).operand(t["args"][1])) if len(t["args"]) > 1 else None
+                    if flag is None or flag:
+                        bad15 += 1
+                        rep.bad("C01.R15", "no-pipeline-flush/%s" % b.path.split("::{")[0], "%s (%s)" % (loc_str(t["loc"]), b.path),
+                                "`pipeline_flush(true)` on a hyper connection that serves upgrades: the response head (200 for CONNECT, 101 for the "
+                                "tunnel) is still unflushed when hyper hands the socket over if the client sent bytes right behind its request, "
+                                "and is dropped - the client never sees the status line, or sees the target's bytes in its place")
         if not bad15:
             rep.ok("C01.R15", "no-linger", "", "%d socket method calls inspected, none sets SO_LINGER" % k15, nontrivial=False)
         rep.floor("C01.R15", "socket method calls inspected", k15, 4)
